@@ -512,6 +512,16 @@ impl<'a> GeneratorState<'a> {
             _ => unreachable!(),
         }
 
+        // An immediate operand (constant, address of an array, high byte of a 8 bits value)
+        // can't be written to
+        if dasm_operand.starts_with('#') {
+            if let STA | STX | STY | INC | DEC | ASL | LSR | ROL | ROR = mnemonic {
+                return Err(self
+                    .compiler_state
+                    .syntax_error("Can't write into a constant or an address", pos));
+            }
+        }
+
         let mut s = mnemonic.to_string();
         if !dasm_operand.is_empty() {
             s += " ";
